@@ -39,7 +39,18 @@ func sigReencode(t *tape.Tape, sig []byte) ([]byte, string) {
 	n := len(sig) / 2
 	rb, sb := sig[:n], sig[n:]
 	r, s := new(big.Int).SetBytes(rb), new(big.Int).SetBytes(sb)
-	switch t.Choose(5, "reencode.kind") {
+	switch t.Choose(6, "reencode.kind") {
+	case 5:
+		// a middlebox (or an HSM client) that drops leading zero bytes of the
+		// whole signature string
+		i := 0
+		for i < len(sig)-1 && sig[i] == 0 {
+			i++
+		}
+		if i == 0 {
+			return nil, ""
+		}
+		return append([]byte{}, sig[i:]...), "sig.strip-leading-zeros"
 	case 0:
 		der, err := asn1.Marshal(struct{ R, S *big.Int }{r, s})
 		if err != nil {
@@ -96,7 +107,29 @@ func scenarioC03(r *Run) {
 	fm := GenFaultMix(t)
 	ent := NewEntropy(uint64(t.U32("entropy.seed")))
 	to := TrafficOpts{Spec: SpecOpts{MaxExtra: 4, MaxSigner: 3, Cheap: t.Bool(2, 3, "c03.cheap")}, ForeignPct: 30, Detach: true}
-	a := r.GenWire(t, to, ent)
+	var a *Wire
+	switch t.Pick([]int{40, 1, 2}, "c03.source") {
+	case 1:
+		// a pre-mined RSASSA-PSS message whose signature starts with a zero
+		// byte (1 in 256 signatures; found once per process by searching
+		// entropy seeds), so that zero-stripping middleboxes have something
+		// to strip
+		mined := minedRSA()
+		a = mined[t.Choose(len(mined), "c03.mined")]
+		r.Probe("rsa-signature-with-leading-zero")
+	case 2:
+		// a byzantine peer that signs over the re-encoded (deterministic)
+		// form of its headers while sending them in another encoding
+		s := genSpec(t, to.Spec)
+		k := genKnobs(t)
+		k.SignCanonical = true
+		k.Reorder = true
+		a = r.ForeignWire(t, s, k, ent, false, 0, false)
+		a.Desc = "byzantine peer (signs the re-encoded headers) " + s.Kind.String()
+		r.Fired("peer.signs-over-reencoded-headers")
+	default:
+		a = r.GenWire(t, to, ent)
+	}
 	if a == nil {
 		r.Outcome("no-traffic")
 		return
@@ -236,6 +269,11 @@ func scenarioC03(r *Run) {
 	origRef, oerr := RefVerdict(spec.Kind, a.B, keysOf(spec), spec.External, detachedPayload(a))
 	if oerr != nil || kind != spec.Kind && !(isSign1(kind) && isSign1(spec.Kind)) {
 		return
+	}
+	for _, o := range origRef {
+		if !o.Valid {
+			return // not validly signed as issued (byzantine peer): no lineage to speak of
+		}
 	}
 	r.Check()
 	if len(origRef) == len(ref) && !keyChanged {
@@ -401,3 +439,35 @@ func c03Envelope(r *Run) {
 }
 
 var _ = ecdsa.Verify
+
+// minedRSA returns, for each 2048-bit RSA pool key, a COSE_Sign1 issued by the
+// foreign peer whose PSS signature starts with a zero byte.  Computed once per
+// process; a pure function of the key pool (no tape, no clock).
+var minedRSACache []*Wire
+
+func minedRSA() []*Wire {
+	if minedRSACache != nil {
+		return minedRSACache
+	}
+	for _, k := range poolRSA[:2] {
+		a := k.Alg
+		spec := &MsgSpec{Kind: refcose.KSign1Tagged, Payload: []byte("mined for a leading zero"), Key: k,
+			Layer: Layer{Prot: Bucket{{refcbor.Uint(refcose.LAlg), refcbor.Int(a)}}}}
+		prot := refcbor.CanonicalBytes(bucketItem(spec.Layer.Prot, nil))
+		tbs := refcose.SigStructure1(prot, nil, spec.Payload)
+		for seed := uint64(1); seed < 20000; seed++ {
+			sig := foreignSign(k, tbs, NewEntropy(seed))
+			if sig[0] != 0 {
+				continue
+			}
+			wire := refcbor.Encode(refcbor.Tag(18, refcbor.Array(refcbor.Bstr(prot), refcbor.Map(), refcbor.Bstr(spec.Payload), refcbor.Bstr(sig))))
+			minedRSACache = append(minedRSACache, &Wire{Kind: refcose.KSign1Tagged, Dec: "Sign1Message", B: wire, Spec: spec, Foreign: true,
+				Desc: "foreign Sign1Tagged (" + k.Name + ", PSS signature mined for a leading zero byte)"})
+			break
+		}
+	}
+	if len(minedRSACache) == 0 {
+		panic("harness: no RSA signature with a leading zero found")
+	}
+	return minedRSACache
+}
